@@ -136,6 +136,11 @@ func c08(c *Ctx) {
 	// cancelled but was set again afterwards must still be restored
 	if !c.importing {
 		importSibling(c, "C02", "C08.R5", func(rule string) bool { return rule == "C02.R5" })
+		// R7: a variable addressed by name is found only if its symbol was entered into the table (C10.R3: every symbol read
+		// is copied and stored)
+		importSiblingWhere(c, "C10", "C08.R7", func(rule string) bool { return rule == "C10.R3" }, func(cons string) bool {
+			return strings.Contains(cons, "symbol") || strings.Contains(cons, "slide")
+		})
 	}
 	r.Expl = "Structural clauses behind 'variable mocks restore the pre-mock value': the slot Cancel writes back is captured first-write-wins (guard false once captured), captured from the target before the target is overwritten, never from the new value; Cancel writes back only if captured; every target write of a VarMock goes through the capturing function. Reset cancels every cached mocker unconditionally (C02.R5); the zero value written back for a variable that held the nil interface is the zero value of the variable's own type. A mocker reports itself cancelled only after Cancel (a mocker born cancelled makes the builder build a second one whose original is the mocked value). Memory-model visibility to concurrent readers and symbol address correctness (C10) are not decided."
 	r.RuleText = "one obligation per (rule, store / call site / method); all name concrete SSA constructs"
